@@ -154,6 +154,8 @@ class Repo:
         self.overlay = dict(overlay or {})
         self._mods: dict[str, Module] = {}
         self._consts: dict[tuple[str, str], Any] = {}
+        self._mod_ns: dict[str, dict] = {}
+        self._const_busy: set[str] = set()
         self._callgraph = None
         if not (self.root / "tucan").is_dir():
             raise AnalysisError(f"{self.root}/tucan not found")
@@ -320,9 +322,28 @@ class Repo:
             _, m, n = r
             k2 = (m.name, n)
             if k2 not in self._consts:
-                self._consts[k2] = ConstEval(self, m).eval(m.assigns[n], {})
+                if m.name in self._const_busy:
+                    # asked for while the module's own top level is being evaluated: the single-assignment form only
+                    return ConstEval(self, m).eval(m.assigns[n], {})
+                ns = self.module_namespace(m)
+                if n in ns:
+                    self._consts[k2] = ns[n]
+                else:
+                    self._consts[k2] = ConstEval(self, m).eval(m.assigns[n], {})
             self._consts[key] = self._consts[k2]
         return self._consts[key]
+
+    def module_namespace(self, m: Module) -> dict:
+        """values of the module-level names of m obtained by running its top-level statements (assignments, loops,
+        conditionals, calls of pure module functions) in the constant evaluator; names whose statements cannot be
+        evaluated are absent"""
+        if m.name not in self._mod_ns:
+            self._const_busy.add(m.name)
+            try:
+                self._mod_ns[m.name] = ConstEval(self, m).run_module()
+            finally:
+                self._const_busy.discard(m.name)
+        return self._mod_ns[m.name]
 
     def try_const(self, module: Module | str, name: str, default=None):
         try:
@@ -381,6 +402,24 @@ class Repo:
         return self._callgraph
 
 
+class ConstInst:
+    """an instance of a tucan value class (NamedTuple / dataclass) inside the constant evaluator"""
+    def __init__(self, ci, fields: dict):
+        self.ci, self.fields = ci, fields
+
+    def __iter__(self):
+        return iter(self.fields.values())
+
+    def __eq__(self, other):
+        return isinstance(other, ConstInst) and other.ci is self.ci and other.fields == self.fields
+
+    def __hash__(self):
+        return hash((self.ci.fq, tuple(self.fields.values())))
+
+    def __repr__(self):
+        return f"{self.ci.name}({', '.join(f'{k}={v!r}' for k, v in self.fields.items())})"
+
+
 class ConstEval:
     """Pure evaluator for module-level constant expressions.  Supports exactly
     the forms needed for tucan's tables; anything else raises NotConst."""
@@ -405,6 +444,8 @@ class ConstEval:
     def e_Name(self, e, env):
         if e.id in env:
             return env[e.id]
+        if e.id in getattr(self, "_poisoned", ()):
+            raise NotConst(e.id)
         r = self.repo.resolve(self.m, e.id)
         if r and r[0] == "const":
             return self.repo.const(r[1], r[2])
@@ -487,12 +528,91 @@ class ConstEval:
         return out
 
     def e_Attribute(self, e, env):
+        root = e
+        while isinstance(root, (ast.Attribute, ast.Subscript, ast.Call)):
+            root = root.func if isinstance(root, ast.Call) else root.value
+        if isinstance(root, ast.Name) and root.id in env:
+            recv = self.eval(e.value, env)
+            if isinstance(recv, ConstInst):
+                if e.attr in recv.fields:
+                    return recv.fields[e.attr]
+                raise NotConst(norm(e))
+            raise NotConst(norm(e))
         r = self.repo.resolve_dotted(self.m, e)
         if r and r[0] == "const":
             return self.repo.const(r[1], r[2])
         raise NotConst(norm(e))
 
+    def _value_class_fields(self, ci) -> Optional[list]:
+        """field names of a NamedTuple / dataclass without a hand-written __init__/__new__, else None"""
+        bases = self.repo.base_names(ci)
+        decos = [norm(d).split("(")[0].split(".")[-1] for d in ci.node.decorator_list]
+        if not (any(b.split(".")[-1] == "NamedTuple" for b in bases) or "dataclass" in decos):
+            return None
+        if "__init__" in ci.methods or "__new__" in ci.methods or "__post_init__" in ci.methods:
+            return None
+        return [st.target.id for st in ci.node.body if isinstance(st, ast.AnnAssign) and isinstance(st.target, ast.Name)]
+
+    def _construct(self, ci, args, kwargs):
+        fields = self._value_class_fields(ci)
+        if fields is None:
+            raise NotConst(f"class {ci.name}")
+        vals = {}
+        defaults = {st.target.id: st.value for st in ci.node.body if isinstance(st, ast.AnnAssign) and isinstance(st.target, ast.Name) and st.value is not None}
+        for i, f in enumerate(fields):
+            if i < len(args):
+                vals[f] = args[i]
+            elif f in kwargs:
+                vals[f] = kwargs[f]
+            elif f in defaults:
+                vals[f] = ConstEval(self.repo, ci.module).eval(defaults[f], {})
+            else:
+                raise NotConst("missing field")
+        return ConstInst(ci, vals)
+
     def e_Call(self, e, env):
+        # method of a value-class instance held in a local
+        if isinstance(e.func, ast.Attribute):
+            root = e.func.value
+            while isinstance(root, (ast.Attribute, ast.Subscript, ast.Call)):
+                root = root.func if isinstance(root, ast.Call) else root.value
+            if isinstance(root, ast.Name) and root.id in env:
+                recv = self.eval(e.func.value, env)
+                if isinstance(recv, ConstInst):
+                    m = self.repo.mro_method(recv.ci, e.func.attr)
+                    if m is None:
+                        if e.func.attr == "_asdict":
+                            return dict(recv.fields)
+                        raise NotConst(norm(e.func))
+                    return self.call_function(m, [recv] + [self.eval(a, env) for a in e.args], {k.arg: self.eval(k.value, env) for k in e.keywords})
+        if isinstance(e.func, ast.Name) and e.func.id == "map" and "map" not in env and len(e.args) >= 2 and not e.keywords:
+            seqs = [list(self.eval(a, env)) for a in e.args[1:]]
+            fexpr = e.args[0]
+            out = []
+            for tup in zip(*seqs):
+                call = ast.Call(fexpr, [ast.Name(f"__map_arg{i}", ast.Load()) for i in range(len(tup))], [])
+                out.append(self.eval(ast.copy_location(call, e), {**env, **{f"__map_arg{i}": v for i, v in enumerate(tup)}}))
+            return out
+        if isinstance(e.func, (ast.Name, ast.Attribute)) and not (isinstance(e.func, ast.Name) and e.func.id in env):
+            r0 = self.repo.resolve_dotted(self.m, e.func) if not (isinstance(e.func, ast.Attribute) and not isinstance(e.func.value, ast.Name)) else None
+            if r0 and r0[0] == "class":
+                return self._construct(r0[1], [self.eval(a, env) for a in e.args], {k.arg: self.eval(k.value, env) for k in e.keywords})
+            r = self.repo.resolve_dotted(self.m, e.func) if not (isinstance(e.func, ast.Attribute) and not isinstance(e.func.value, ast.Name)) else None
+            if r and r[0] == "func" and (r[1].cls is None or (isinstance(e.func, ast.Attribute) and any(norm(d) == "staticmethod" for d in r[1].node.decorator_list))):
+                if any(isinstance(a, ast.Starred) for a in e.args) or any(k.arg is None for k in e.keywords):
+                    raise NotConst("star args")
+                return self.call_function(r[1], [self.eval(a, env) for a in e.args], {k.arg: self.eval(k.value, env) for k in e.keywords})
+        if isinstance(e.func, ast.Name) and e.func.id == "enumerate" and e.func.id not in env and e.keywords:
+            kw = {k.arg: self.eval(k.value, env) for k in e.keywords}
+            return list(enumerate(*[self.eval(a, env) for a in e.args], **kw))
+        if isinstance(e.func, ast.Attribute) and e.func.attr in self.MUTATORS:
+            root = e.func.value
+            while isinstance(root, (ast.Subscript, ast.Attribute)):
+                root = root.value
+            if isinstance(root, ast.Name) and root.id in env and not e.keywords:
+                recv = self.eval(e.func.value, env)
+                if isinstance(recv, (dict, list, set)):
+                    return getattr(recv, e.func.attr)(*[self.eval(a, env) for a in e.args])
         if e.keywords and not (isinstance(e.func, ast.Name) and e.func.id == "sorted"):
             raise NotConst("kwargs")
         if isinstance(e.func, ast.Name) and e.func.id in self.SAFE_CALLS and e.func.id not in env:
@@ -507,6 +627,170 @@ class ConstEval:
                 raise NotConst("method on " + type(recv).__name__)
             return getattr(recv, e.func.attr)(*[self.eval(a, env) for a in e.args])
         raise NotConst(norm(e.func))
+
+    # ---- statements (module top level and bodies of pure helper functions)
+    MUTATORS = {"append", "extend", "insert", "add", "update", "setdefault", "pop", "remove", "discard", "clear", "sort", "reverse"}
+    _steps = 0
+    _depth = 0
+
+    class _Ret(Exception):
+        def __init__(self, v):
+            self.v = v
+
+    class _Brk(Exception):
+        pass
+
+    class _Cont(Exception):
+        pass
+
+    def _tick(self):
+        ConstEval._steps += 1
+        if ConstEval._steps > 400000:
+            raise NotConst("evaluation budget exhausted")
+
+    def run_module(self) -> dict:
+        ConstEval._steps = 0
+        env: dict = {}
+        poisoned: set = set()
+        self._poisoned = poisoned
+        for st in self.m.tree.body:
+            if isinstance(st, (ast.FunctionDef, ast.AsyncFunctionDef, ast.ClassDef, ast.Import, ast.ImportFrom)):
+                continue
+            if isinstance(st, ast.Expr) and isinstance(st.value, ast.Constant):
+                continue
+            if isinstance(st, ast.If) and "__name__" in norm(st.test):
+                continue
+            try:
+                self._exec([st], env, top=True)
+            except (NotConst, TypeError, KeyError, IndexError, ValueError, AttributeError, ZeroDivisionError, RecursionError,
+                    ConstEval._Ret, ConstEval._Brk, ConstEval._Cont):
+                for n in ast.walk(st):
+                    if isinstance(n, ast.Name) and isinstance(n.ctx, (ast.Store, ast.Del)):
+                        env.pop(n.id, None)
+                        poisoned.add(n.id)
+                    # a statement that may have mutated a table half way leaves it unknown
+                    if isinstance(n, ast.Call) and isinstance(n.func, ast.Attribute) and isinstance(n.func.value, ast.Name) and n.func.attr in self.MUTATORS:
+                        env.pop(n.func.value.id, None)
+                        poisoned.add(n.func.value.id)
+                    if isinstance(n, ast.Subscript) and isinstance(n.ctx, (ast.Store, ast.Del)) and isinstance(n.value, ast.Name):
+                        env.pop(n.value.id, None)
+                        poisoned.add(n.value.id)
+        self._poisoned = set()
+        return {k: v for k, v in env.items() if k not in poisoned}
+
+    def _exec(self, stmts, env, top=False):
+        for st in stmts:
+            self._tick()
+            if isinstance(st, ast.Assign):
+                v = self.eval(st.value, env)
+                for t in st.targets:
+                    self._store(t, v, env)
+            elif isinstance(st, ast.AnnAssign):
+                if st.value is not None:
+                    self._store(st.target, self.eval(st.value, env), env)
+            elif isinstance(st, ast.AugAssign):
+                cur = self.eval(ast.copy_location(_as_load(st.target), st.target), env)
+                new = self.e_BinOp(ast.BinOp(ast.Constant(cur), st.op, ast.Constant(self.eval(st.value, env))), env)
+                self._store(st.target, new, env)
+            elif isinstance(st, ast.For):
+                broke = False
+                for item in self.eval(st.iter, env):
+                    self._tick()
+                    self._bind(st.target, item, env)
+                    try:
+                        self._exec(st.body, env)
+                    except ConstEval._Brk:
+                        broke = True
+                        break
+                    except ConstEval._Cont:
+                        continue
+                if not broke:
+                    self._exec(st.orelse, env)
+            elif isinstance(st, ast.While):
+                while self.eval(st.test, env):
+                    self._tick()
+                    try:
+                        self._exec(st.body, env)
+                    except ConstEval._Brk:
+                        break
+                    except ConstEval._Cont:
+                        continue
+            elif isinstance(st, ast.If):
+                self._exec(st.body if self.eval(st.test, env) else st.orelse, env)
+            elif isinstance(st, ast.Expr):
+                self.eval(st.value, env)
+            elif isinstance(st, ast.Return):
+                raise ConstEval._Ret(self.eval(st.value, env) if st.value is not None else None)
+            elif isinstance(st, ast.Break):
+                raise ConstEval._Brk()
+            elif isinstance(st, ast.Continue):
+                raise ConstEval._Cont()
+            elif isinstance(st, ast.Pass):
+                pass
+            elif isinstance(st, ast.Delete):
+                for t in st.targets:
+                    if isinstance(t, ast.Name):
+                        env.pop(t.id, None)
+                    elif isinstance(t, ast.Subscript):
+                        del self.eval(t.value, env)[self.eval(t.slice, env)]
+                    else:
+                        raise NotConst("del target")
+            elif isinstance(st, ast.Assert):
+                if not self.eval(st.test, env):
+                    raise NotConst("assertion fails")
+            else:
+                raise NotConst(type(st).__name__)
+
+    def _store(self, t, v, env):
+        if isinstance(t, ast.Name):
+            env[t.id] = v
+        elif isinstance(t, (ast.Tuple, ast.List)):
+            self._bind(t, v, env)
+        elif isinstance(t, ast.Subscript):
+            root = t.value
+            while isinstance(root, (ast.Subscript, ast.Attribute)):
+                root = root.value
+            if not (isinstance(root, ast.Name) and root.id in env):
+                raise NotConst("store into a non-local object")
+            self.eval(t.value, env)[self.eval(t.slice, env)] = v
+        else:
+            raise NotConst("store target")
+
+    def call_function(self, fi: "FuncInfo", args: list, kwargs: dict):
+        if ConstEval._depth > 6:
+            raise NotConst("call depth")
+        fn = fi.node
+        if fn.args.vararg or fn.args.kwarg or any(isinstance(d, (ast.Yield, ast.YieldFrom, ast.Global, ast.Nonlocal)) for d in ast.walk(fn)):
+            raise NotConst("function form")
+        sub = ConstEval(self.repo, fi.module)
+        env: dict = {}
+        params = [a.arg for a in fn.args.posonlyargs + fn.args.args]
+        defaults = fn.args.defaults
+        for i, p in enumerate(params):
+            if i < len(args):
+                env[p] = args[i]
+            elif p in kwargs:
+                env[p] = kwargs[p]
+            else:
+                di = i - (len(params) - len(defaults))
+                if not 0 <= di < len(defaults):
+                    raise NotConst("missing argument")
+                env[p] = sub.eval(defaults[di], {})
+        for a, d in zip(fn.args.kwonlyargs, fn.args.kw_defaults):
+            if a.arg in kwargs:
+                env[a.arg] = kwargs[a.arg]
+            elif d is not None:
+                env[a.arg] = sub.eval(d, {})
+            else:
+                raise NotConst("missing argument")
+        ConstEval._depth += 1
+        try:
+            sub._exec(fn.body, env)
+        except ConstEval._Ret as r:
+            return r.v
+        finally:
+            ConstEval._depth -= 1
+        return None
 
     def _comp(self, gens, env, emit):
         def rec(i, env):
@@ -551,6 +835,47 @@ class ConstEval:
             out[self.eval(e.key, en)] = self.eval(e.value, en)
         self._comp(e.generators, env, emit)
         return out
+
+
+def desugar_match(st: "ast.Match"):
+    """An if/elif chain equivalent to a match statement whose patterns are literals, alternatives of literals, a capture
+    or the wildcard (with optional guards); None for structural patterns."""
+    subj = st.subject
+    chain = None
+    tail = None
+    for case in st.cases:
+        pat = case.pattern
+        pre = []
+        if isinstance(pat, ast.MatchValue):
+            test = ast.Compare(subj, [ast.Eq()], [pat.value])
+        elif isinstance(pat, ast.MatchSingleton):
+            test = ast.Compare(subj, [ast.Is()], [ast.Constant(pat.value)])
+        elif isinstance(pat, ast.MatchOr) and all(isinstance(p, ast.MatchValue) for p in pat.patterns):
+            test = ast.BoolOp(ast.Or(), [ast.Compare(subj, [ast.Eq()], [p.value]) for p in pat.patterns])
+        elif isinstance(pat, ast.MatchAs) and pat.pattern is None:
+            test = ast.Constant(True)
+            if pat.name:
+                pre = [ast.Assign([ast.Name(pat.name, ast.Store())], subj)]
+        else:
+            return None
+        if case.guard is not None:
+            if pre:
+                return None
+            test = ast.BoolOp(ast.And(), [test, case.guard])
+        node = ast.If(test, pre + list(case.body), [])
+        ast.copy_location(node, case.body[0])
+        ast.fix_missing_locations(node)
+        if chain is None:
+            chain = node
+        else:
+            tail.orelse = [node]
+        tail = node
+    return chain
+
+
+def _as_load(t: ast.expr) -> ast.expr:
+    t2 = ast.parse(norm(t), mode="eval").body
+    return t2
 
 
 # ---------------------------------------------------------------------------
@@ -734,6 +1059,13 @@ class CallGraph:
                 if q2 in fi.module.functions:
                     edges.add(fi.module.functions[q2].fq)
                 continue
+            if isinstance(n, ast.Attribute) and isinstance(n.ctx, ast.Load):
+                # reading a property of a tucan class runs its getter
+                t = lt.type_of(n.value)
+                if isinstance(t, ClassInfo):
+                    m = self.repo.mro_method(t, n.attr)
+                    if m is not None and any(norm(d).split(".")[-1] in ("property", "cached_property") for d in m.node.decorator_list):
+                        edges.add(m.fq)
             if not isinstance(n, ast.Call):
                 continue
             cs = self.resolve_call(fi, n, lt, params)
